@@ -61,4 +61,18 @@ theorem bpkiCSRDec_bounded (csr : List UInt8) (hlen : csr.length < W) :
   obtain ⟨h1, h2⟩ := runDec_bdd csr hlen _ bpkiCSRDec_steps_bdd {} 0 (Nat.zero_le _)
   exact ⟨h1, fun c st h => (h2 c st h).2⟩
 
+theorem bignParamsDec_steps_bdd : ∀ s ∈ bignParamsDecSteps, BddStep s := by
+  unfold bignParamsDecSteps
+  simp only [List.forall_mem_cons, List.not_mem_nil, false_imp_iff, implies_true, and_true]
+  exact ⟨bdd_dStart _ _, bdd_dPrim _ (bdd_sizeDec2 _), bdd_dStart _ _, bdd_dPrim _ (bdd_oidDec2 _), bdd_dUintP, bdd_dStop _,
+    bdd_dStart _ _, bdd_dOctLen, bdd_dOctLen, bdd_dOut _ (bdd_bitDec2v 64), bdd_dStop _, bdd_dOctLen, bdd_dUintLen,
+    bdd_dOpt _ (bdd_sizeDec2 _), bdd_dStop _⟩
+
+/-- bignParamsDec_internal (the parse path of bignParamsDec): no over-read, returned length ≤ input, whatever the
+    optional cofactor and the probed length of p are -/
+theorem bignParamsDec_bounded (der : List UInt8) (hlen : der.length < W) :
+    bignParamsDecI der ≠ .oob ∧ ∀ c st, bignParamsDecI der = .ok (c, st) → c ≤ der.length := by
+  obtain ⟨h1, h2⟩ := runDec_bdd der hlen _ bignParamsDec_steps_bdd {} 0 (Nat.zero_le _)
+  exact ⟨h1, fun c st h => (h2 c st h).2⟩
+
 end Bee2V.C08
